@@ -130,6 +130,7 @@ ALL = ["C%02d" % i for i in range(1, 21)]
 
 
 def run(outdir, slot, k0, k1):
+    outdir = os.path.abspath(outdir)
     env = dict(os.environ, MUT_SLOT=str(slot), MUT_FROM_HEAD="1")
     mw = f"/tmp/mw{slot}"
     for k in range(k0, k1):
